@@ -87,3 +87,22 @@ def aerase {α β} [BEq α] (k : α) : List (α × β) → List (α × β)
   | (k', v') :: rest => if k' == k then rest else (k', v') :: aerase k rest
 
 end A816
+
+namespace A816
+/-- Python exception classes that the assembler's control flow distinguishes (others are `other`). -/
+inductive Err
+  | key | index | value | runtime | struct | zeroDiv | recursion | os | type | assertion | other
+  | symbolNotDefined (name : String)
+  | node (msg : String) (line : Int)     -- `NodeError` (message class, line of `file_info`; -1 when absent)
+  | scan (msg : String) (line col : Int)  -- `ScannerException`
+  | parse (line col : Int)                -- `ParserSyntaxError` (position of its token; -1 when absent)
+  | outOfFuel                             -- the model's fuel ran out: the Python code would not terminate
+  deriving DecidableEq, Repr, Inhabited
+
+def Err.tag : Err → String
+  | .key => "KeyError" | .index => "IndexError" | .value => "ValueError" | .runtime => "RuntimeError"
+  | .struct => "struct.error" | .zeroDiv => "ZeroDivisionError" | .recursion => "RecursionError"
+  | .os => "OSError" | .type => "TypeError" | .assertion => "AssertionError" | .other => "Exception"
+  | .symbolNotDefined _ => "SymbolNotDefined" | .node _ _ => "NodeError" | .scan _ _ _ => "ScannerException"
+  | .parse _ _ => "ParserSyntaxError" | .outOfFuel => "OUT-OF-FUEL"
+end A816
